@@ -168,7 +168,7 @@ def assigned_names(stmts):
             for x in t.elts:
                 target(x)
         elif isinstance(t, ast.Subscript):
-            st = store_target(t)
+            st = store_root(t)
             add(st + '$g' if st else root_name(t.value))
         else:
             raise Unsupported('assignment target %s' % ast.dump(t))
@@ -219,6 +219,18 @@ def store_target(t):
             and isinstance(t.value, ast.Subscript) and isinstance(t.value.value, ast.Attribute) \
             and t.value.value.attr == 'nodes' and isinstance(t.value.value.value, ast.Name):
         return t.value.value.value.id
+    return None
+
+
+def store_root(t):
+    """X when the target chain passes through X.nodes[n]['graph'] (a write into a stored fragment graph or the
+    assignment of one), else None"""
+    e = t
+    while isinstance(e, (ast.Subscript, ast.Attribute)):
+        st = store_target(e)
+        if st:
+            return st
+        e = e.value
     return None
 
 
@@ -411,14 +423,12 @@ class Tr:
         if isinstance(op, (ast.In, ast.NotIn)):
             if ta == 'str' and tb == ATTRS:
                 r = '(ahas %s %s)' % (a, b)
-            elif ta == 'int' and tb == ('set', 'int'):
+            elif ta == 'int' and tb in (('set', 'int'), 'empty_set'):
                 r = '(zset_mem %s %s)' % (a, b)
-            elif ta == 'str' and tb == ('set', 'str'):
+            elif ta == 'str' and tb in (('set', 'str'), 'empty_set'):
                 r = '(sset_mem %s %s)' % (a, b)
             elif ta == 'str' and tb == ('set', 'pyval'):
                 r = '(pvset_mem_str %s %s)' % (a, b)
-            elif ta == 'str' and tb in ('empty_set',):
-                r = '(sset_mem %s %s)' % (a, b)
             else:
                 raise Unsupported('`in` on %r and %r' % (ta, tb))
             return 'bool', r if isinstance(op, ast.In) else '(negb %s)' % r
@@ -447,8 +457,7 @@ class Tr:
                 raise Unsupported('.%s of a %r' % (e.value.attr, tg))
             tk, k = self.expr(e.slice, env, pre)
             if e.value.attr == 'nodes':
-                if tk != 'int':
-                    raise Unsupported('G.nodes[k] with a key of type %r' % (tk,))
+                k = self.node_key(tk, k, pre)
                 return ATTRS, self.bindf(pre, 'nx_node_attrs %s %s' % (g, k))
             if tk != ('tuple', 'int', 'int'):
                 raise Unsupported('G.edges[k] with a key of type %r' % (tk,))
@@ -481,11 +490,20 @@ class Tr:
             return tv[1], self.bindf(pre, 'py_list_head %s' % v)
         raise Unsupported('subscript %s (%r by %r)' % (ast.unparse(e), tv, tk))
 
+    def node_key(self, tk, k, pre):
+        if tk == 'int':
+            return k
+        if tk == 'pyval':
+            return self.bindf(pre, 'py_node_key %s' % k)
+        raise Unsupported('G.nodes[k] with a key of type %r' % (tk,))
+
     def attribute(self, e, env, pre):
         if e.attr == 'nodes':
             tg, g = self.expr(e.value, env, pre)
             if tg == 'graph':
                 return ('list', 'int'), '(nx_nodes %s)' % g
+            if tg == ('opt', 'graph'):
+                return ('list', 'int'), self.bindf(pre, 'opt_graph_nodes %s' % g)
         if e.attr == 'edges':
             tg, g = self.expr(e.value, env, pre)
             if tg == 'graph':
@@ -548,7 +566,7 @@ class Tr:
                 return 'int', '(nx_len %s)' % v
             if t == 'pyval':
                 return 'int', self.bindf(pre, 'py_len_pv %s' % v)
-            if isinstance(t, tuple) and t[0] in ('list', 'dict', 'set'):
+            if isinstance(t, tuple) and t[0] in ('list', 'dict'):
                 return 'int', '(Z.of_nat (length %s))' % v
         if fname == 'max' and nargs == 1 and not kws:
             (t, v), = args()
@@ -598,7 +616,20 @@ class Tr:
                 (ta, a), (tb, b) = args()
                 if t == 'graph' and ta == 'int' and tb == 'int':
                     return 'bool', '(nx_has_edge %s %s %s)' % (v, a, b)
+            if m == 'get' and nargs == 2 and not kws and isinstance(e.func.value, ast.Subscript) \
+                    and isinstance(e.func.value.value, ast.Attribute) and e.func.value.value.attr == 'nodes' \
+                    and isinstance(e.func.value.value.value, ast.Name) and e.func.value.value.value.id in self.stores \
+                    and isinstance(e.args[0], ast.Constant) and e.args[0].value == 'graph':
+                # G.nodes[n].get('graph', None): the graph-valued attribute lives in the store beside G
+                if not (isinstance(e.args[1], ast.Constant) and e.args[1].value is None):
+                    raise Unsupported('default of .get(\'graph\', ...) is not None')
+                gname = e.func.value.value.value.id
+                tn, n = self.expr(e.func.value.slice, env, pre)
+                n = self.node_key(tn, n, pre)
+                return ('opt', 'graph'), self.bindf(pre, 'nx_get_node_graph %s %s %s' % (env[gname].coq, env[gname + '$g'].coq, n))
             if m == 'get' and nargs == 2 and not kws:
+                if isinstance(e.args[0], ast.Constant) and e.args[0].value == 'graph':
+                    raise Unsupported('the graph-valued attribute read from something that is not a store')
                 t, v = self.expr(e.func.value, env, pre)
                 (tk, k), (td, d) = args()
                 if t == ATTRS and tk == 'str':
@@ -775,6 +806,22 @@ class Tr:
     def setitem(self, target, value, env, k):
         pre = []
         base = target.value
+        # X.nodes[mn]['graph'].nodes[n][key] = v
+        if isinstance(base, ast.Subscript) and isinstance(base.value, ast.Attribute) and base.value.attr == 'nodes' \
+                and store_target(base.value.value):
+            gname = store_target(base.value.value)
+            if gname not in self.stores or gname not in env:
+                raise Unsupported('%s has no store of fragment graphs' % gname)
+            tv, v = self.expr(value, env, pre)
+            tm, mn = self.expr(base.value.value.value.slice, env, pre)
+            mn = self.node_key(tm, mn, pre)
+            tn, n = self.expr(base.slice, env, pre)
+            tk, kk = self.expr(target.slice, env, pre)
+            if tn != 'int' or tk != 'str' or tv == 'graph':
+                raise Unsupported('write into a stored fragment graph: %s' % ast.unparse(target))
+            st = gname + '$g'
+            return self.rebind(st, 'nx_set_store_node_item %s %s %s %s %s %s' % (env[gname].coq, env[st].coq, mn, n, kk,
+                                                                             to_pyval(tv, v)), env, k, pre, fallible=True)
         # G.nodes[n][key] = v
         if isinstance(base, ast.Subscript) and isinstance(base.value, ast.Attribute) and base.value.attr == 'nodes' \
                 and isinstance(base.value.value, ast.Name):
@@ -897,6 +944,8 @@ class Tr:
                 var = env[recv.id]
                 tv, v = self.expr(e.args[0], env, pre)
                 if var.type == 'empty_set' or var.type == ('set', tv):
+                    if tv not in ('int', 'str'):
+                        raise Unsupported('set of %r' % (tv,))
                     return self.rebind(recv.id, 'set_add_%s %s %s' % (tv, var.coq, v), env, k, pre, newtype=('set', tv))
         raise Unsupported('expression statement %s' % ast.unparse(e))
 
@@ -929,6 +978,9 @@ class Tr:
                 and s.test.operand.id in self.fixed_none and not s.orelse:
             # `if not <parameter fixed to None>:` -- the branch is always taken
             return self.wrap(pre, self.block(s.body, env, k))
+        if isinstance(s.test, ast.Name) and s.test.id in self.fixed_none and tc == 'none':
+            # `if <parameter fixed to None>:` -- the else branch is always taken
+            return self.wrap(pre, self.block(s.orelse, env, k))
         c = self.truth(tc, c)
         outs = [n for n in assigned_names(s.body + s.orelse)]
         # names defined in one branch only and unknown before are dropped (their later use is Unsupported)
@@ -1022,7 +1074,44 @@ class Tr:
         return self.wrap(pre, '%s <- fold_res %s %s %s ;;\n  %s' % (st_pat, fn, l, init, k(env2)))
 
     def while_stmt(self, s, env, k):
-        raise Unsupported('while loop')
+        if s.orelse:
+            raise Unsupported('while/else')
+        names = assigned_names(s.body)
+        for n in names:
+            if n not in env:
+                raise Unsupported('%s is first bound inside a while loop' % n)
+        carried = names
+        env_in = copy_env(env)
+        st_names = []
+        for n in carried:
+            cn = self.coq_name(n)
+            env_in[n] = Var(cn, env[n].type, borrowed=env[n].borrowed, escaped=env[n].escaped)
+            st_names.append(cn)
+        tc, c = self.pure(s.test, env_in)
+        c = self.truth(tc, c)
+        # fuel: 1 + the sizes of the sets the condition tests (they must not change in the loop)
+        sizes = []
+        for n in ast.walk(s.test):
+            if isinstance(n, ast.Compare) and len(n.ops) == 1 and isinstance(n.ops[0], (ast.In, ast.NotIn)):
+                r = n.comparators[0]
+                if not (isinstance(r, ast.Name) and r.id in env and r.id not in carried
+                        and (env[r.id].type == 'empty_set' or (isinstance(env[r.id].type, tuple) and env[r.id].type[0] == 'set'))):
+                    raise Unsupported('while condition tests membership in something that is not a loop-invariant set')
+                sizes.append('length %s' % env[r.id].coq)
+        if not sizes:
+            raise Unsupported('while loop without a membership test to bound it')
+        body, out_types, out_env = self.branch(s.body, env_in, carried)
+        if out_types != [env[n].type for n in carried]:
+            raise Unsupported('a while loop changes the type of its state')
+        vals = [out_env[o].coq for o in carried]
+        body = body.replace('\x00', 'Ok (%s)' % ', '.join(vals))
+        pat = self.tuple_pat(st_names)
+        init = '(%s)' % ', '.join(env[n].coq for n in carried)
+        env2 = copy_env(env)
+        for n in carried:
+            env2[n] = Var(self.coq_name(n), env[n].type, escaped=out_env[n].escaped, borrowed=out_env[n].borrowed)
+        return ('%s <- py_while (Datatypes.S (%s)) (fun st_ => let %s := st_ in %s) (fun st_ => let %s := st_ in\n  %s) %s ;;\n  %s'
+                % (pat, ' + '.join(sizes), pat, c, pat, body, init, k(env2)))
 
     # ---------------------------------------------------------------- function
     def translate(self, name):
@@ -1112,6 +1201,18 @@ def gen_annotate(t):
     return tr.translate('gen_annotate_fragments')
 
 
+def gen_names(t):
+    fn = py2v.find_function(t, 'set_atom_names_atomistic')
+    d = default_of(fn, 'meta_graph')
+    if not (isinstance(d, ast.Constant) and d.value is None):
+        raise Unsupported('default of meta_graph is not None')
+    # once with a coarse graph (the resolver), once at meta_graph=None (the sampler)
+    out = Tr(fn, {'molecule': 'graph', 'meta_graph': 'graph'}, stores=['meta_graph']).translate('gen_set_atom_names_atomistic')
+    out += '\n' + Tr(fn, {'molecule': 'graph', 'meta_graph': 'none'},
+                     fixed_none=['meta_graph']).translate('gen_set_atom_names_atomistic_nometa')
+    return out
+
+
 PREAMBLE = ('From Coq Require Import Lia.\n'
             'From CGV Require Import Base.NxGraph Resolve.GraphOps Resolve.SourcePrims.\n'
             'Open Scope Z_scope.\n\n')
@@ -1124,4 +1225,5 @@ def gen_graphutils(trees):
     out += gen_sort(t)
     out += '\n' + gen_merge(t)
     out += '\n' + gen_annotate(t)
+    out += '\n' + gen_names(t)
     return out
